@@ -2008,7 +2008,9 @@ func (s *SelectStatement) rewriteWithoutTimeDimensions() string {
 	n := RewriteFunc(s.Condition, func(n Node) Node {
 		switch n := n.(type) {
 		case *BinaryExpr:
-			if n.LHS.String() == "time" {
+			// A time bound may be written with time on either side of the
+			// comparison; the name is matched as ConditionExpr matches it.
+			if isTimeRef(n.LHS) || isTimeRef(n.RHS) {
 				return &BooleanLiteral{Val: true}
 			}
 			return n
@@ -2020,6 +2022,13 @@ func (s *SelectStatement) rewriteWithoutTimeDimensions() string {
 	})
 
 	return n.String()
+}
+
+// isTimeRef returns true if expr is a reference to the time column.
+// The name is compared case-insensitively, the same way ConditionExpr does.
+func isTimeRef(expr Expr) bool {
+	ref, ok := expr.(*VarRef)
+	return ok && strings.ToLower(ref.Val) == "time"
 }
 
 func encodeMeasurement(mm *Measurement) *internal.Measurement {
